@@ -11,7 +11,7 @@
 (*   GRAMMARS : ND-JSON [id, nts, ts, start, rules]                        *)
 (*   OBS      : ND-JSON [id, gid, w, t, at, pulled], sorted by gid         *)
 (***************************************************************************)
-EXTENDS Driver, Json, IOUtils
+EXTENDS LR1, Json, IOUtils
 
 GSeq == ndJsonDeserialize(IOEnv.GRAMMARS)
 Obs == ndJsonDeserialize(IOEnv.OBS)
